@@ -41,12 +41,12 @@ def gen(r, tier, i):
     procs = []
     for pid in range(n):
         procs.append({'pid': pid, 'ts': r.choice(TS),
-                      'emit': {v: r.random() < 0.6 for v in ('a', 'b', 'q', 'ser', 'falsy')}})
+                      'emit': {v: r.random() < 0.6 for v in ('a', 'b', 'q', 'q2', 'ser', 'falsy')}})
     overrides = []
     for pid in range(n):
         k = r.random()
         if k < 0.25:
-            overrides.append({'path': ['st', 'p%d' % pid, r.choice(['a', 'b', 'q'])], 'emit': r.random() < 0.5})
+            overrides.append({'path': ['st', 'p%d' % pid, r.choice(['a', 'b', 'q', 'q2'])], 'emit': r.random() < 0.5})
         elif k < 0.4:
             overrides.append({'path': ['st', 'p%d' % pid], 'emit': r.random() < 0.5})
     if r.random() < 0.15:
@@ -104,6 +104,8 @@ def build(spec, emit_step):
                 'S': {'a': {'_default': 0, '_emit': em['a']},
                       'b': {'_default': 1.5, '_emit': em['b']},
                       'q': {'_default': 1.0 * units.fg, '_emit': em['q'], '_units': units.fg},
+                      # declared in fg, default given in pg, never updated: must be emitted in fg
+                      'q2': {'_default': 0.002 * units.pg, '_emit': em['q2'], '_units': units.fg},
                       'ser': {'_default': 0, '_emit': em['ser'], '_serializer': 'vmon_tag'},
                       'falsy': {'_default': 3, '_emit': em['falsy'], '_updater': 'set'}},
                 'shared': {'n': {'_default': 0, '_emit': True}, 'hidden': {'_default': 0, '_emit': False}},
@@ -232,7 +234,7 @@ def expected_row(spec, snap, fl):
             on = fl.get(path[:3])
         if not on:
             continue
-        if path[-1] == 'q':
+        if path[-1] in ('q', 'q2'):
             v = '!units[%s]' % str(v.to(units.fg))
         elif path[-1] == 'ser':
             v = 'tag:%s' % (v,)
